@@ -41,8 +41,12 @@ def all_encodings():
                         continue
                     if tr and edge == "implied" and ({"en", "ef"} & set(sup)):
                         continue                     # transposed edge tables need edge_dimension declared
-                    out.append({"base": base, "fill": fill, "transposed": tr, "supplied": list(sup),
-                                "edge_dim": edge, "coords_as": coords})
+                    enc = {"base": base, "fill": fill, "transposed": tr, "supplied": list(sup),
+                           "edge_dim": edge, "coords_as": coords}
+                    out.append(enc)
+                    if fill == "intfill":
+                        # the fill value just outside the index range: 0 for one-based, -1 for zero-based tables
+                        out.append(dict(enc, fillvalue=0 if base == 1 else -1))
     return out
 
 
